@@ -454,6 +454,56 @@ print(yields_nothing(sv)); print(\"{s1}\"); print(yields_nothing(em)); print(\"{
             }
         }
 
+        // ---- B: for-each bodies that are not straight-line code
+        if !flag("--no-body") {
+            let mut bstrs: Vec<Vec<u32>> = vec![vec![], vec![0x41], vec![0x1F600], "日本語 text ünï 😀".chars().map(|c| c as u32).collect(),
+                "aébécédé".chars().map(|c| c as u32).collect(), vec![0x61, 0x61, 0x61], vec![0x20AC, 0x61, 0x20AC, 0x1F600, 0x61]];
+            for _ in 0..arg_u64("--body", 25) {
+                let len = rng.range_i64(1, 12) as usize;
+                let pool: Vec<u32> = (0..rng.range_i64(2, 6)).map(|_| loop { let c = rand_scalar(&mut rng); if c >= 0x20 && c != 0x7F { break c; } }).collect();
+                bstrs.push((0..len).map(|_| *rng.pick(&pool[..])).collect());
+            }
+            for (bi, cs) in bstrs.iter().enumerate() {
+                let n = cs.len();
+                let pivot: u32 = if n == 0 || rng.chance(1, 5) { 0x78 } else { cs[n / 2] };
+                let ds: Vec<u32> = if rng.chance(1, 2) || n == 0 { vec![0x61, 0xE9, 0x78] } else { cs.iter().rev().take(4).cloned().collect() };
+                let mut all = cs.clone(); all.extend(ds.iter()); all.push(pivot);
+                let (s1, _) = pick_seps(&all);
+                let form = *rng.pick(&["lit", "cat_var", "method_concat", "fn_ret", "interp", "param_typed"]);
+                let cons = construct(cs, form, &mut rng);
+                let body = format!("let tv = \"{t}\"\nlet pv = \"{p}\"\n\
+let mut items = 0\nlet mut wide = 0\nfor c1 in sv {{\n    items = items + 1\n    if c1.len() == 1 {{ continue }}\n    wide = wide + 1\n}}\nprint(items); print(\"{s1}\"); print(wide); print(\"{s1}\")\n\
+let mut kk = 0\nlet mut acc = \"\"\nfor c2 in sv {{\n    kk++\n    if kk % 2 == 0 {{ continue }}\n    acc = acc + c2\n}}\nprint(kk); print(\"{s1}\"); print(acc); print(\"{s1}\")\n\
+let mut ne = 0\nlet mut tot = 0\nfor c3 in sv {{\n    tot++\n    if c3 == pv {{ continue }}\n    ne++\n}}\nprint(tot); print(\"{s1}\"); print(ne); print(\"{s1}\")\n\
+let mut pre = \"\"\nlet mut seen = 0\nfor c4 in sv {{\n    if c4 == pv {{ break }}\n    seen++\n    pre = pre + c4\n}}\nprint(seen); print(\"{s1}\"); print(pre); print(\"{s1}\")\n\
+let mut pairs = 0\nlet mut outer = 0\nfor oa in sv {{\n    if oa.len() > 2 {{ continue }}\n    for ib in tv {{\n        if ib == oa {{ continue }}\n        pairs++\n    }}\n    outer++\n}}\nprint(pairs); print(\"{s1}\"); print(outer); print(\"{s1}\")\n\
+let mut viaf = \"\"\nfor c6 in sv {{\n    let getc = fn() {{ return c6 }}\n    viaf = viaf + getc()\n}}\nprint(viaf); print(\"{s1}\")\n\
+print(find_pos(sv, pv)); print(\"{s1}\"); print(find_pos(sv, \"\\0\")); print(\"{s1}\")\n\
+let mut total = 0\nlet mut bytes = 0\nfor c8 in sv {{\n    let a1 = c8.len()\n    let a2 = a1 * 2\n    let a3 = helper3(a1, a2)\n    let a4 = a3 - a2\n    total = total + a3\n    if a3 > 100 {{ continue }}\n    bytes = bytes + a4\n}}\nprint(total); print(\"{s1}\"); print(bytes); print(\"{s1}\")\n",
+                    t = lit(&ds, &mut rng), p = lit(&[pivot], &mut rng));
+                let local = rng.chance(1, 3);
+                let src = format!("fn find_pos(u, q) {{\n    let mut i = 0\n    for c7 in u {{\n        if c7 == q {{ return i }}\n        i++\n    }}\n    return -1\n}}\nfn helper3(a, b) {{ return a + b }}\n{}",
+                                  wrap(&cons, &body, form, local));
+                println!("L\t{}\t{}\t{}", bi, form, esc(&src));
+                for &o in &opts {
+                    let r = run_program(&src, o, (0, 0), budget, None);
+                    let obs: Vec<i128> = if r.class != "ok" { vec![-9, class_code(&r.class)] } else {
+                        match r.output.strip_suffix(s1) {
+                            None => vec![-8, 1],
+                            Some(b) => { let f: Vec<&str> = b.split(s1).collect();
+                                if f.len() != 15 { vec![-8, f.len() as i128] } else {
+                                    let mut v = Vec::new();
+                                    for (k, x) in f.iter().enumerate() {
+                                        if k == 3 || k == 7 || k == 10 { v.extend(bytes_of(x)); } else { v.push(x.parse::<i128>().unwrap_or(-77)); }
+                                    }
+                                    v } }
+                        }
+                    };
+                    println!("B\t{}:{}:{}:O{}\tQBody {} {} [{}]\t{}", bi, form, if local { "local" } else { "global" }, o, coq_list(cs), coq_list(&ds), pivot, join(&obs));
+                }
+            }
+        }
+
         // ---- P: programs
         if flag("--no-prog") { return; }
         let strs = gen_strings(&mut rng, n_random);
@@ -477,8 +527,9 @@ print(yields_nothing(sv)); print(\"{s1}\"); print(yields_nothing(em)); print(\"{
                 let cons = construct(cs, form, &mut rng);
                 // an immutable top-level constant named like the loop variables, declared before the loops: the loops' own
                 // variables must shadow it at every optimisation level
-                let collide = !local && rng.chance(1, 2);
-                let main_src = format!("{}{}", if collide { "let it = \"?\"\nlet jx = 0\n" } else { "" }, wrap(&cons, &observe("sv", n, idx_form, s1, s2), form, local));
+                let collide = rng.chance(1, 2);
+                // the constants stand directly before the loops: at top level, inside `fn entry()`, or inside `fn obs(u)`
+                let main_src = wrap(&cons, &format!("{}{}", if collide { "let it = \"?\"\nlet jx = 0\n" } else { "" }, observe("sv", n, idx_form, s1, s2)), form, local);
                 let mut err_srcs = Vec::new();
                 for (k, i) in [-1i64, n as i64, n as i64 + 1].iter().enumerate() {
                     let body = if k == 0 && rng.chance(1, 2) { "let neg = 0 - 1\nprint(sv[neg])\n".to_string() }
@@ -514,7 +565,7 @@ print(yields_nothing(sv)); print(\"{s1}\"); print(yields_nothing(em)); print(\"{
                         Some(a) => (if a[0] >= 1 { "SelString" } else { "SelDynamic" }, format!("{},{},{},{},{}", a[0], a[1], a[2], a[3], a[4])),
                         None => ("SelString", "?".to_string()),
                     };
-                    println!("P\t{}:{}:{}:{}:O{}:{}\tQProg {} {}\t{}", case_id, form, idx_form, if local { "local" } else if collide { "global+const" } else { "global" }, o, opss,
+                    println!("P\t{}:{}:{}:{}:O{}:{}\tQProg {} {}\t{}", case_id, form, idx_form, if local && collide { "local+const" } else if local { "local" } else if collide { "global+const" } else { "global" }, o, opss,
                              sel, coq_list(cs), join(&obs));
                 }
                 case_id += 1;
